@@ -550,7 +550,8 @@ impl Prop for C17 {
             let sc = inp.scales(e.area);
             !(den >= 1e-3 * sc.tot_weighted && den > 0.0)
         };
-        let drop_rer = |t: &str| -> String { if rer_is_noise { t.lines().filter(|l| !l.starts_with("RER")).collect::<Vec<_>>().join("\n") } else { t.to_string() } };
+        let wild = |l: &str| l.rsplit('=').next().and_then(|v| v.trim().parse::<f64>().ok()).map(|v| v.abs() > 2.0).unwrap_or(false);
+        let drop_rer = |t: &str| -> String { t.lines().filter(|l| !(l.starts_with("RER") && (rer_is_noise || wild(l)))).collect::<Vec<_>>().join("\n") };
         let (r1, r2) = (parse_report(&drop_rer(&plain)), parse_report(&drop_rer(&ep2.to_plain())));
         ensure!(r1.labels == r2.labels, "stable_order", "two evaluations print different line sequences");
         ensure!(r1.all_numbers.len() == r2.all_numbers.len(), "stable_order", "two evaluations print a different amount of numbers");
